@@ -8,7 +8,7 @@ their kinds and values, an unknown init_arg, dict_kwargs.
 """
 import json
 
-from ..ch import S, Fail, absorb, run_jobs
+from ..ch import S, Fail, absorb, run_jobs, untraced
 from ..common import run_native
 from ..stubs import FORMAT_STUBS_NOTE, install_format_stubs
 
@@ -445,6 +445,81 @@ def class_change(names, via, c1a):
     return harness
 
 
+# ---- a Dict[str, Base] argument overridden key by key: every key behaves like a plain class argument given the same two values ----
+
+_FIRST = {"Sub1": {"class_path": "vf.fixtures.Sub1", "init_args": {"w": 4, "z": 0.25}}, "Sub2": {"class_path": "vf.fixtures.Sub2", "init_args": {"w": 3, "flag": True}}}
+_OVERRIDES = {
+    "none": None,
+    "init-w": {"init_args": {"w": 9}},
+    "init-z": {"init_args": {"z": 0.75}},  # valid only if the class given before is Sub1
+    "init-flag": {"init_args": {"flag": False}},  # valid only if the class given before is Sub2
+    "other-class": {"class_path": "vf.fixtures.Base", "init_args": {"w": 1}},
+    "same-class-name-only": {"class_path": "Sub1"},
+}
+
+
+def _dict_once(first, over, via):  # first / over: dicts keyed by the item names
+    from typing import Dict
+
+    from jsonargparse import ActionConfigFile, ArgumentError, ArgumentParser
+
+    from ..fixtures import Base
+
+    keys = sorted(first)
+
+    def plain(k):
+        p1 = ArgumentParser(exit_on_error=False)
+        p1.add_argument("--x", type=Base, default=None)
+        argv = ["--x=" + json.dumps(_FIRST[first[k]])]
+        if _OVERRIDES[over[k]] is not None:
+            argv.append("--x=" + json.dumps(_OVERRIDES[over[k]]))
+        try:
+            return "ok", p1.parse_args(argv).x
+        except ArgumentError as ex:
+            return "rejected", str(ex)[:100]
+
+    want = {k: plain(k) for k in keys}
+    pd = ArgumentParser(exit_on_error=False)
+    pd.add_argument("--cfg", action=ActionConfigFile)
+    pd.add_argument("--d", type=Dict[str, Base], default={})
+    d1 = {k: _FIRST[first[k]] for k in keys}
+    d2 = {k: _OVERRIDES[over[k]] for k in keys if _OVERRIDES[over[k]] is not None}
+    argv = ["--cfg", json.dumps({"d": d1})] if via == "cfg-then-option" else ["--d=" + json.dumps(d1)]
+    if d2:
+        argv.append("--d=" + json.dumps(d2))
+    try:
+        got = pd.parse_args(argv).d
+        status = "ok"
+    except ArgumentError as ex:
+        got, status = str(ex)[:100], "rejected"
+    S.note(status)
+    any_rejected = any(v[0] == "rejected" for k, v in want.items() if k in d2 or True)
+    if (status == "rejected") != any_rejected:
+        return Fail("dict-of-classes:accept-reject-differs-from-plain-arguments", first=first, over=over, via=via, got=status, plain={k: v[0] for k, v in want.items()})
+    if status == "ok":
+        if d2 and set(got) != set(keys):
+            # a later dict replaces or merges? the documented rule for dict-typed keys is replace; per-key comparison only for the keys present
+            pass
+        for k in got:
+            if k in want and want[k][0] == "ok" and (k in d2 or not d2):
+                if _veq(got[k], want[k][1]) is False:
+                    return Fail("dict-of-classes:key-differs-from-plain-argument", key=k, first=first[k], over=over[k], via=via, got=str(got[k])[:150], want=str(want[k][1])[:150])
+    return True
+
+
+def dict_of_classes(nkeys=2, via="two-options"):
+    names = ("p", "q", "r")[:nkeys]
+    _dict_once({k: "Sub1" for k in names}, {k: "none" for k in names}, via)
+
+    def harness():
+        first = {k: S.pick(f"first.{k}", ["Sub1", "Sub2"]) for k in names}
+        over = {k: S.pick(f"over.{k}", sorted(_OVERRIDES)) for k in names}
+        with untraced():
+            return _dict_once(first, over, via)
+
+    return harness
+
+
 def main(rep, tier):
     rep.functions = FUNCTIONS
     rep.stubs = [FORMAT_STUBS_NOTE]
@@ -467,6 +542,8 @@ def main(rep, tier):
             jobs.append(dict(module="c14", func="specs", kwargs=kw, timeout=600))
     jobs.append(dict(module="c14", func="short_forms", kwargs={}, timeout=600))
     jobs.append(dict(module="c14", func="callables", kwargs={}, timeout=600))
+    for via in ("two-options", "cfg-then-option"):
+        jobs.append(dict(module="c14", func="dict_of_classes", kwargs=dict(nkeys=2 if tier == "quick" else 3, via=via), timeout=900))
     for names in ((["net", "net_ema"], ["net_ema", "net"]) if tier == "quick" else (["net", "net_ema"], ["net_ema", "net"], ["m", "m2"])):
         for via in ("cfg_base", "two-cfg"):
             for c1a in range(4):
